@@ -260,7 +260,7 @@ pub trait IntoGameNode {
     /// available in the same order. In addition, this library only works for games with perfect
     /// recall, which means that a player can't forget their own actions. Another way to state this
     /// is that all nodes with the same infoset must all have followed the same previous infoset
-    /// for that player.
+    /// for that player, and the same action at that infoset.
     type PlayerInfo: Eq;
     /// The type of the player action
     ///
@@ -348,11 +348,12 @@ impl ChanceInfosetData {
 #[derive(Debug)]
 struct PlayerInfosetBuilder<A> {
     actions: Box<[A]>,
-    prev_infoset: Option<usize>,
+    /// the previous infoset of this player and the index of the action taken there
+    prev_infoset: Option<(usize, usize)>,
 }
 
 impl<A> PlayerInfosetBuilder<A> {
-    fn new(actions: impl Into<Box<[A]>>, prev_infoset: Option<usize>) -> Self {
+    fn new(actions: impl Into<Box<[A]>>, prev_infoset: Option<(usize, usize)>) -> Self {
         PlayerInfosetBuilder {
             actions: actions.into(),
             prev_infoset,
@@ -372,7 +373,7 @@ impl<I, A> PlayerInfosetData<I, A> {
         PlayerInfosetData {
             infoset,
             actions: builder.actions,
-            prev_infoset: builder.prev_infoset,
+            prev_infoset: builder.prev_infoset.map(|(infoset, _)| infoset),
         }
     }
 
@@ -470,7 +471,7 @@ impl<I: Hash + Eq, A: Hash + Eq> Game<I, A> {
         player_infosets: &mut [&mut Builder<I, PlayerInfosetBuilder<A>>; 2],
         single_infosets: &mut [&mut HashMap<I, A>; 2],
         node: T,
-        mut prev_infosets: [Option<usize>; 2],
+        mut prev_infosets: [Option<(usize, usize)>; 2],
     ) -> Result<Node, GameError>
     where
         T: IntoGameNode<PlayerInfo = I, Action = A>,
@@ -576,10 +577,12 @@ impl<I: Hash + Eq, A: Hash + Eq> Game<I, A> {
                                 }
                             }
                         }?;
-                        *player_num.ind_mut(&mut prev_infosets) = Some(info_ind);
                         let next_verts: Result<Box<[_]>, _> = nexts
                             .into_iter()
-                            .map(|next| {
+                            .enumerate()
+                            .map(|(act_ind, next)| {
+                                // perfect recall: remember the infoset and the action taken
+                                *player_num.ind_mut(&mut prev_infosets) = Some((info_ind, act_ind));
                                 Game::init_recurse(
                                     chance_infosets,
                                     player_infosets,
